@@ -306,6 +306,8 @@ class Ranges:
 
         if self.is_set:
             self._value = np.concatenate([v.ravel() for v in values])
+        elif len(values) > 1:  # The range is spread over more value arrays.
+            self._value = _assemble_values(self.ranges[0], self.values)
         elif values:
             self._value = values[0]
         else:
